@@ -994,6 +994,16 @@ impl World {
                             if self.model.apply_normalize(m, &post_raw) > 0 {
                                 rep.probes.push("normalize_merged_adjacent_text");
                             }
+                            for (a, before, after) in self.model.adopt_attr_pieces_under(m, &post_raw) {
+                                rep.probes.push("normalize_touched_attribute_value_pieces");
+                                if before != after {
+                                    fails.push(Fail::new(
+                                        "C13",
+                                        "effect",
+                                        format!("normalize changed the value of attribute {:?} from {:?} to {:?}", self.model.key(a), before, after),
+                                    ));
+                                }
+                            }
                         }
                     }
                     self.model.gc();
